@@ -138,6 +138,11 @@ def run(ctx):
     scen += many_sets()
     scen += flag_only(rng, quick)
     scen += power_boundaries()
+    # the plain product Length x log2(|alphabet|) for every length up to 700 (quick: every third) over four alphabet sizes: rounded once
+    for a, x in ((15, 16), (7, 0), (3, 0), (4, 0)):
+        for L in range(1, 701, 3 if quick else 1):
+            scen.append(dict(kind="char", char=dict(len=L, allow=a, require=0, exclude=x, allowChars=[], requireSets=[], excludeChars=[]), maxTrials=0,
+                             failRateOne=0, mode="paths", paths=0, maxLeaves=0, tag="length-ladder"))
     files, cells, leaves = charfam.run_scenarios(ctx, scen, "c07", shards=vlib.NCPU)
     sf, sc_, sl = charfam.run_sequences(ctx, charfam.collision_sequences(), "c07")
     files, cells, leaves = files + sf, cells + sc_, leaves + sl
